@@ -260,7 +260,7 @@ def sequence_cases(ctx, r, ok_runs, single):
         return []
     keys = sorted(classes)
     r.shuffle(keys)
-    n = ctx.n(48, 600)
+    n = ctx.n(40, 600)
     shapes = ["SF", "FF", "SF", "FS", "SFS", "FF", "SF", "FFF"]
     out = []
     for i in range(n):
@@ -481,9 +481,12 @@ def run(ctx):
         n_sets += len(frontier)
         frontier = follow_ups(evaluate(ctx, frontier, templates, breaks), seen)
     # several operations in ONE process, `os.chdir` between them
+    import time
+    t0 = time.time()
     seqs = sequence_cases(ctx, r, ok_runs, single)
     evaluate_sequences(ctx, seqs, templates, breaks)
     ctx.stats["sequences"] = len(seqs)
+    ctx.stats["sequence_seconds"] = round(time.time() - t0, 1)
     ctx.stats["correspondence_breaks"] = len(breaks)
     ctx.stats["bases"] = len(bases)
     ctx.stats["fault_cases"] = len(faults)
